@@ -82,7 +82,15 @@ pub enum Body {
     Newtype(FTy),
     Tuple(Vec<FTy>),
     Unit,
-    UnitEnum { variants: Vec<(u8, Option<u8>)>, rename_all: Option<u8> },
+    UnitEnum {
+        variants: Vec<(u8, Option<u8>)>,
+        rename_all: Option<u8>,
+        /// positions of variants marked `#[serde(skip_deserializing)]` (serde still writes them)
+        #[serde(default)]
+        skip_de: Vec<u8>,
+    },
+    /// a tuple struct of 3 elements one of which is `#[serde(skip)]` (serde writes the other two)
+    TupleSkip { elems: Vec<FTy>, skipped: u8 },
     Enum { variants: Vec<VariantDef>, tagging: Tagging, rename_all: Option<u8>, rename_all_fields: Option<u8> },
 }
 
@@ -90,6 +98,10 @@ pub enum Body {
 pub struct TypeDef {
     pub body: Body,
     pub component: bool,
+    /// serde proxy types (fixed helper types of the generated program): 0 none, 1 `into = "POut"`, 2 `into = "POut", from = "PIn"`,
+    /// 3 `into = "POut", try_from = "PIn"` — what serde *writes* is POut in all three
+    #[serde(default)]
+    pub proxy: u8,
 }
 
 #[derive(Debug, Clone, Serialize, Deserialize)]
@@ -183,6 +195,12 @@ pub fn normalise(types: &mut Vec<TypeDef>) {
     for i in 0..types.len() {
         let (earlier, rest) = types.split_at_mut(i);
         let t = &mut rest[0];
+        t.proxy %= 4;
+        // (`#[openapi(component)]` together with a proxy type does not compile: the derive passes the proxy's
+        // `impl Into<SchemaRef>` to `component()`, which wants a `Schema<T>` — a refusal, not a wrong description)
+        if t.proxy != 0 {
+            t.component = false
+        }
         match &mut t.body {
             Body::Struct { fields, rename_all } => {
                 fix_fields(fields, earlier);
@@ -200,8 +218,22 @@ pub fn normalise(types: &mut Vec<TypeDef>) {
                     fix_fty(f, earlier)
                 }
             }
+            Body::TupleSkip { elems, skipped } => {
+                elems.truncate(3);
+                while elems.len() < 3 {
+                    elems.push(FTy::U32)
+                }
+                for f in elems.iter_mut() {
+                    fix_fty(f, earlier)
+                }
+                *skipped %= 3;
+                // the skipped element is filled in by Default when reading
+                if matches!(elems[*skipped as usize], FTy::Ref(_)) {
+                    elems[*skipped as usize] = FTy::U32
+                }
+            }
             Body::Unit => {}
-            Body::UnitEnum { variants, rename_all } => {
+            Body::UnitEnum { variants, rename_all, skip_de } => {
                 let mut seen = BTreeSet::new();
                 variants.retain(|v| seen.insert(v.0 % VARIANT_NAMES.len() as u8));
                 let mut seen_r = BTreeSet::new();
@@ -217,6 +249,16 @@ pub fn normalise(types: &mut Vec<TypeDef>) {
                 }
                 if let Some(c) = rename_all {
                     *c %= CASES.len() as u8
+                }
+                let n = variants.len() as u8;
+                for k in skip_de.iter_mut() {
+                    *k %= n
+                }
+                skip_de.sort();
+                skip_de.dedup();
+                // one variant at least can be read back
+                if skip_de.len() as u8 == n {
+                    skip_de.clear()
                 }
             }
             Body::Enum { variants, tagging, rename_all, rename_all_fields } => {
@@ -334,6 +376,12 @@ pub fn codegen(types: &[TypeDef], value_seed: u64) -> (String, Vec<(usize, usize
         let start = s.lines().count() + 1;
         let mut cont: Vec<String> = Vec::new();
         let comp = if t.component { "#[openapi(component)]\n" } else { "" };
+        match t.proxy {
+            1 => cont.push("into = \"POut\"".into()),
+            2 => cont.push("into = \"POut\", from = \"PIn\"".into()),
+            3 => cont.push("into = \"POut\", try_from = \"PIn\"".into()),
+            _ => {}
+        }
         let derive = "#[derive(Debug, Clone, PartialEq, Serialize, Deserialize, Schema)]\n";
         match &t.body {
             Body::Struct { fields, rename_all } => {
@@ -345,23 +393,31 @@ pub fn codegen(types: &[TypeDef], value_seed: u64) -> (String, Vec<(usize, usize
                 let _ = write!(s, "impl Gen for T{i} {{ fn gen(r: &mut Rng) -> Self {{ T{i} {{ {} }} }} }}\n", fields_gen(fields));
             }
             Body::Newtype(ft) => {
-                let _ = write!(s, "{derive}{comp}struct T{i}({});\n", fty_src(ft));
+                let attr = if cont.is_empty() { String::new() } else { format!("#[serde({})]\n", cont.join(", ")) };
+                let _ = write!(s, "{derive}{comp}{attr}struct T{i}({});\n", fty_src(ft));
                 let _ = write!(s, "impl Gen for T{i} {{ fn gen(r: &mut Rng) -> Self {{ T{i}(Gen::gen(r)) }} }}\n");
             }
             Body::Tuple(fs) => {
-                let _ = write!(s, "{derive}{comp}struct T{i}({});\n", fs.iter().map(fty_src).collect::<Vec<_>>().join(", "));
+                let attr = if cont.is_empty() { String::new() } else { format!("#[serde({})]\n", cont.join(", ")) };
+                let _ = write!(s, "{derive}{comp}{attr}struct T{i}({});\n", fs.iter().map(fty_src).collect::<Vec<_>>().join(", "));
                 let _ = write!(s, "impl Gen for T{i} {{ fn gen(r: &mut Rng) -> Self {{ T{i}({}) }} }}\n", fs.iter().map(|_| "Gen::gen(r)").collect::<Vec<_>>().join(", "));
             }
+            Body::TupleSkip { elems, skipped } => {
+                let attr = if cont.is_empty() { String::new() } else { format!("#[serde({})]\n", cont.join(", ")) };
+                let _ = write!(s, "{derive}{comp}{attr}struct T{i}({});\n", elems.iter().enumerate().map(|(k, f)| format!("{}{}", if k == *skipped as usize { "#[serde(skip)] " } else { "" }, fty_src(f))).collect::<Vec<_>>().join(", "));
+                let _ = write!(s, "impl Gen for T{i} {{ fn gen(r: &mut Rng) -> Self {{ T{i}({}) }} }}\n", elems.iter().map(|_| "Gen::gen(r)").collect::<Vec<_>>().join(", "));
+            }
             Body::Unit => {
-                let _ = write!(s, "{derive}{comp}struct T{i};\n");
+                let attr = if cont.is_empty() { String::new() } else { format!("#[serde({})]\n", cont.join(", ")) };
+                let _ = write!(s, "{derive}{comp}{attr}struct T{i};\n");
                 let _ = write!(s, "impl Gen for T{i} {{ fn gen(_r: &mut Rng) -> Self {{ T{i} }} }}\n");
             }
-            Body::UnitEnum { variants, rename_all } => {
+            Body::UnitEnum { variants, rename_all, skip_de } => {
                 if let Some(c) = rename_all {
                     cont.push(format!("rename_all = \"{}\"", CASES[*c as usize]));
                 }
                 let attr = if cont.is_empty() { String::new() } else { format!("#[serde({})]\n", cont.join(", ")) };
-                let vs: String = variants.iter().map(|(n, r)| format!("    {}{},\n", r.map(|r| format!("#[serde(rename = \"{}\")] ", RENAMES[r as usize])).unwrap_or_default(), VARIANT_NAMES[*n as usize])).collect();
+                let vs: String = variants.iter().enumerate().map(|(k, (n, r))| format!("    {}{}{},\n", if skip_de.contains(&(k as u8)) { "#[serde(skip_deserializing)] " } else { "" }, r.map(|r| format!("#[serde(rename = \"{}\")] ", RENAMES[r as usize])).unwrap_or_default(), VARIANT_NAMES[*n as usize])).collect();
                 let _ = write!(s, "{derive}{comp}{attr}enum T{i} {{\n{vs}}}\n");
                 let arms: String = variants.iter().enumerate().map(|(k, (n, _))| format!("{k} => T{i}::{}, ", VARIANT_NAMES[*n as usize])).collect();
                 let _ = write!(s, "impl Gen for T{i} {{ fn gen(r: &mut Rng) -> Self {{ match r.pick({}) {{ {arms}_ => unreachable!() }} }} }}\n", variants.len());
@@ -408,6 +464,18 @@ pub fn codegen(types: &[TypeDef], value_seed: u64) -> (String, Vec<(usize, usize
                 let _ = write!(s, "impl Gen for T{i} {{ fn gen(r: &mut Rng) -> Self {{ match r.pick({}) {{ {arms}_ => unreachable!() }} }} }}\n", variants.len());
             }
         }
+        if t.proxy != 0 {
+            let _ = write!(s, "impl From<T{i}> for POut {{ fn from(_: T{i}) -> POut {{ POut {{ out_a: 7, out_b: \"written through the proxy\".to_string() }} }} }}\n");
+        }
+        match t.proxy {
+            2 => {
+                let _ = write!(s, "impl From<PIn> for T{i} {{ fn from(_: PIn) -> T{i} {{ Gen::gen(&mut Rng(88172645463325252, true)) }} }}\n");
+            }
+            3 => {
+                let _ = write!(s, "impl TryFrom<PIn> for T{i} {{ type Error = String; fn try_from(_: PIn) -> Result<T{i}, String> {{ Ok(Gen::gen(&mut Rng(88172645463325252, true))) }} }}\n");
+            }
+            _ => {}
+        }
         let end = s.lines().count() + 1;
         ranges.push((start, end));
     }
@@ -430,6 +498,11 @@ impl Rng {
     fn pick(&mut self, n: usize) -> usize { (self.next() % n as u64) as usize }
 }
 pub trait Gen: Sized { fn gen(r: &mut Rng) -> Self; }
+/// what a type with `#[serde(into = "POut")]` is written as, and what one with `from`/`try_from = "PIn"` is read from
+#[derive(Debug, Clone, PartialEq, Serialize, Deserialize, Schema)]
+pub struct POut { out_a: u32, out_b: String }
+#[derive(Debug, Clone, PartialEq, Serialize, Deserialize, Schema)]
+pub struct PIn { in_only: Vec<String> }
 impl Gen for String { fn gen(r: &mut Rng) -> Self { if r.1 { ["a", "hello world", "ü/\"q\"", "0", "null"][r.pick(5)].to_string() } else { ["", "a", "hello world", "ü/\"q\"", "0", "null"][r.pick(6)].to_string() } } }
 impl Gen for u8 { fn gen(r: &mut Rng) -> Self { [0u8, 1, 7, 255][r.pick(4)] } }
 impl Gen for u32 { fn gen(r: &mut Rng) -> Self { [0u32, 1, 42, u32::MAX][r.pick(4)] } }
@@ -512,11 +585,17 @@ pub fn features(t: &TypeDef) -> BTreeSet<String> {
         Body::Tuple(_) => {
             out.insert("tuple-struct".into());
         }
+        Body::TupleSkip { .. } => {
+            out.insert("tuple-struct-with-skipped-element".into());
+        }
         Body::Unit => {
             out.insert("unit-struct".into());
         }
-        Body::UnitEnum { variants, rename_all } => {
+        Body::UnitEnum { variants, rename_all, skip_de } => {
             out.insert("unit-enum".into());
+            if !skip_de.is_empty() {
+                out.insert("variant-skip_deserializing".into());
+            }
             if let Some(c) = rename_all {
                 out.insert(format!("variants-rename_all={}", CASES[*c as usize]));
             }
@@ -591,11 +670,12 @@ fn typedef() -> impl Strategy<Value = TypeDef> {
         6 => (vec(field(), 0..6), case.clone()).prop_map(|(fields, rename_all)| Body::Struct { fields, rename_all }),
         1 => fty().prop_map(Body::Newtype),
         1 => vec(fty(), 2..4).prop_map(Body::Tuple),
+        1 => (vec(fty(), 3), 0u8..3).prop_map(|(elems, skipped)| Body::TupleSkip { elems, skipped }),
         1 => Just(Body::Unit),
-        2 => (vec((0u8..6, prop::option::weighted(0.2, 0u8..6)), 1..5), case.clone()).prop_map(|(variants, rename_all)| Body::UnitEnum { variants, rename_all }),
+        2 => (vec((0u8..6, prop::option::weighted(0.2, 0u8..6)), 1..5), case.clone(), prop_oneof![3 => Just(vec![]), 1 => vec(0u8..5, 1..3)]).prop_map(|(variants, rename_all, skip_de)| Body::UnitEnum { variants, rename_all, skip_de }),
         4 => (vec(variant, 1..4), tagging, case.clone(), prop::option::weighted(0.25, 0u8..8)).prop_map(|(variants, tagging, rename_all, rename_all_fields)| Body::Enum { variants, tagging, rename_all, rename_all_fields }),
     ];
-    (body, prop::bool::weighted(0.2)).prop_map(|(body, component)| TypeDef { body, component })
+    (body, prop::bool::weighted(0.2), prop_oneof![12 => Just(0u8), 1 => Just(1u8), 1 => Just(2u8), 1 => Just(3u8)]).prop_map(|(body, component, proxy)| TypeDef { body, component, proxy })
 }
 
 // ---------------------------------------------------------------- compile & run
@@ -696,7 +776,7 @@ fn drop_types(types: &[TypeDef], bad: &BTreeSet<usize>) -> Vec<Option<TypeDef>> 
         match &t.body {
             Body::Struct { fields, .. } => fields.iter().for_each(|x| f(&x.ty)),
             Body::Newtype(ft) => f(ft),
-            Body::Tuple(fs) => fs.iter().for_each(|x| f(x)),
+            Body::Tuple(fs) | Body::TupleSkip { elems: fs, .. } => fs.iter().for_each(|x| f(x)),
             Body::Enum { variants, .. } => variants.iter().for_each(|v| match &v.kind {
                 VKind::Newtype(ft) => f(ft),
                 VKind::Struct(fields) => fields.iter().for_each(|x| f(&x.ty)),
@@ -724,7 +804,7 @@ fn type_refs(t: &TypeDef) -> Vec<usize> {
     match &t.body {
         Body::Struct { fields, .. } => fields.iter().for_each(|x| f(&x.ty)),
         Body::Newtype(ft) => f(ft),
-        Body::Tuple(fs) => fs.iter().for_each(|x| f(x)),
+        Body::Tuple(fs) | Body::TupleSkip { elems: fs, .. } => fs.iter().for_each(|x| f(x)),
         Body::Enum { variants, .. } => variants.iter().for_each(|v| match &v.kind {
             VKind::Newtype(ft) => f(ft),
             VKind::Struct(fields) => fields.iter().for_each(|x| f(&x.ty)),
@@ -830,7 +910,7 @@ impl Property for C16 {
                     match &mut t.body {
                         Body::Struct { fields, .. } => fields.iter_mut().for_each(|f| remap(&mut f.ty, &new_index)),
                         Body::Newtype(ft) => remap(ft, &new_index),
-                        Body::Tuple(fs) => fs.iter_mut().for_each(|f| remap(f, &new_index)),
+                        Body::Tuple(fs) | Body::TupleSkip { elems: fs, .. } => fs.iter_mut().for_each(|f| remap(f, &new_index)),
                         Body::Enum { variants, .. } => variants.iter_mut().for_each(|v| match &mut v.kind {
                             VKind::Newtype(ft) => remap(ft, &new_index),
                             VKind::Struct(fields) => fields.iter_mut().for_each(|f| remap(&mut f.ty, &new_index)),
@@ -941,7 +1021,7 @@ impl Property for C16 {
             let body_kind = match &def.body {
                 Body::Struct { .. } => "struct".to_string(),
                 Body::Newtype(_) => "newtype-struct".to_string(),
-                Body::Tuple(_) => "tuple-struct".to_string(),
+                Body::Tuple(_) | Body::TupleSkip { .. } => "tuple-struct".to_string(),
                 Body::Unit => "unit-struct".to_string(),
                 Body::UnitEnum { .. } => "unit-enum".to_string(),
                 Body::Enum { tagging, .. } => format!("enum-{}", match tagging {
@@ -973,7 +1053,12 @@ impl Property for C16 {
                 continue;
             }
             // (1)+(2) for structs with named fields
-            if let Body::Struct { fields, rename_all } = &def.body {
+            // (a type written through a proxy is described by the proxy's shape: only the validation of the written values
+            // in (3) applies to it)
+            if def.proxy != 0 {
+                obs.label("serde-proxy-type");
+            }
+            if let (Body::Struct { fields, rename_all }, 0) = (&def.body, def.proxy) {
                 let props: BTreeSet<String> = schema["properties"].as_object().map(|o| o.keys().cloned().collect()).unwrap_or_default();
                 let keys: BTreeSet<String> = full.iter().filter_map(|v| v.as_object()).flat_map(|o| o.keys().cloned()).collect();
                 if props != keys {
@@ -1026,7 +1111,7 @@ impl Property for C16 {
                 }
             }
             // unit enums: the enumerated strings are what serde writes
-            if let Body::UnitEnum { variants, .. } = &def.body {
+            if let (Body::UnitEnum { variants, .. }, 0) = (&def.body, def.proxy) {
                 let en: BTreeSet<String> = schema["enum"].as_array().map(|a| a.iter().filter_map(|x| x.as_str().map(|s| s.to_string())).collect()).unwrap_or_default();
                 let written: BTreeSet<String> = values.iter().chain(&full).filter_map(|v| v.as_str().map(|s| s.to_string())).collect();
                 if !written.is_subset(&en) {
